@@ -144,6 +144,14 @@ def budget_case(item):
                 got = None
                 diffs.append(('discover-output', 'discover: rc=%s, no JSON: %s' % (r['rc'], (r['out'] + r['err'])[:200])))
             want = {k: [v[0], round(v[1], 2)] for k, v in unknown.items()}
+            # ... and with what `tally up` itself reports as Unknown (per raw description: how many transactions)
+            up_unknown = {}
+            for m in js['merchants']:
+                if m['category'] == 'Unknown':
+                    for desc_, cnt in (m.get('raw_descriptions') or {}).items():
+                        up_unknown[desc_] = up_unknown.get(desc_, 0) + cnt
+            if got is not None and {k_: v_[0] for k_, v_ in got.items()} != up_unknown:
+                diffs.append(('discover-vs-up', 'discover counts %s, `tally up` files as Unknown %s' % ({k_: v_[0] for k_, v_ in got.items()}, up_unknown)))
             if got is not None and got != want:
                 extra = sorted(set(got) - set(want))
                 diffs.append(('discover-list', 'discover lists %s; up leaves Unknown %s' % (got, want),
